@@ -35,6 +35,10 @@ def run_universe(case):
     q = load()
     assets = case['assets']
     entries = [None if e is None else T0 + pd.Timedelta(minutes=e) for e in case['entries']]
+    zones = case.get('zones') or []
+    for i, z in enumerate(zones):
+        if z and i < len(entries) and entries[i] is not None:
+            entries[i] = entries[i].tz_convert(z)           # the same instant, written in another time zone
     amap = dict(zip(assets, entries))
     dyn = q.DynamicUniverse(dict(amap))
     stat = q.StaticUniverse(list(assets))
@@ -53,6 +57,8 @@ def run_universe(case):
         if any(e is not None and e == t for e in entries):
             exact = True
     cls = ['has_none'] if None in entries else []
+    if any(zones):
+        cls.append('entry_in_other_time_zone')
     if exact:
         cls.append('query_exactly_at_entry')
     return Result(cls, nontrivial=exact)
@@ -66,7 +72,8 @@ def universes(draw):
     for _ in range(draw(st.integers(1, 8))):
         base = draw(st.sampled_from([e for e in entries if e is not None] or [0]))
         qs.append(base * 60 + draw(st.sampled_from([0, 0, 60, -60, 1, -1, 86400 * 400, -86400 * 400])))
-    return {'assets': assets, 'entries': entries, 'queries': qs}
+    zones = [draw(st.sampled_from([None, None, None, 'America/New_York', 'Asia/Tokyo', 'Europe/London'])) for _ in assets]
+    return {'assets': assets, 'entries': entries, 'queries': qs, 'zones': zones}
 
 
 def run_optimiser(case):
@@ -130,8 +137,19 @@ def run_sess(case):
     cfg, mk = case['cfg'], case['market']
     with market.csv_dir(mk) as path:
         r = session.run_session(cfg, path, list(mk))
+        res = _verify_session(case, r, 'first run')
+        if case.get('rerun_shared'):
+            # the same backtest again in this process, re-using the universe and alpha-model objects
+            r2 = session.run_session(cfg, path, list(mk), shared={'universe': r.universe, 'alpha_inner': r.alpha_inner})
+            _verify_session(case, r2, 'second run sharing the universe and alpha-model objects')
+            res.classes.append('rerun_with_shared_objects')
+    return res
+
+
+def _verify_session(case, r, label):
+    cfg = case['cfg']
     if r.error:
-        raise Violation('session failed with %s: %s at broker time %s' % r.error)
+        raise Violation('%s: session failed with %s: %s at broker time %s' % ((label,) + tuple(r.error)))
     end = cal.ts6(cfg['end'])
     entry = {a: (None if v is None else cal.ts6(v)) for a, v in cfg['universe']['dates'].items()}
     sig = cfg['alpha']['signal']
@@ -146,20 +164,20 @@ def run_sess(case):
         keys = set(row) - {'Date'}
         want = set(a for a, e in entry.items() if e is not None and e <= t)
         if keys != want:
-            raise Violation('target allocation at %s covers %s; universe members (entry <= t) are %s (entries %s)' % (
-                t, sorted(keys), sorted(want), {a: str(e) for a, e in entry.items()}))
+            raise Violation('%s: target allocation at %s covers %s; universe members (entry <= t) are %s (entries %s)' % (
+                label, t, sorted(keys), sorted(want), {a: str(e) for a, e in entry.items()}))
         for a in want:
             if row[a] != sig:
-                raise Violation('member %s has target weight %r at %s, the signal is %r' % (a, row[a], t, sig))
+                raise Violation('%s: member %s has target weight %r at %s, the signal is %r' % (label, a, row[a], t, sig))
     for f in r.fills:
         a = f[1]
         if first.get(a) is None or f[0] < first[a]:
-            raise Violation('fill in %s at %s; its first rebalance as a member is %s (entry %s)' % (
-                a, f[0], first.get(a), entry.get(a)))
+            raise Violation('%s: fill in %s at %s; its first rebalance as a member is %s (entry %s)' % (
+                label, a, f[0], first.get(a), entry.get(a)))
     for a, e in entry.items():
         if e is None or e > end:
             if a in r.holdings or any(f[1] == a for f in r.fills) or any(a in row for row in rows):
-                raise Violation('asset %s (entry %s) appears in the results' % (a, e))
+                raise Violation('%s: asset %s (entry %s) appears in the results' % (label, a, e))
     on = any(e is not None and e in inst for e in entry.values())
     after = any(e is not None and (e - pd.Timedelta(minutes=1)) in inst for e in entry.values())
     cls = list(case.get('labels', [])) + [cfg['rebalance'], 'long_only' if cfg['long_only'] else 'long_short']
@@ -187,7 +205,7 @@ def sessions(draw):
             dates[a] = v
             lab = lab + ['entry_' + l]
         cfg['universe'] = {'kind': 'dynamic', 'dates': dates}
-    return {'cfg': cfg, 'market': mk, 'labels': sorted(set(lab))}
+    return {'cfg': cfg, 'market': mk, 'labels': sorted(set(lab)), 'rerun_shared': draw(st.booleans())}
 
 
 PARTS = [
